@@ -271,6 +271,24 @@ func (s *c08scen) mkCert(blk c08blk, shape string, stale []common.Address) (*typ
 			cert.Signatures = append(cert.Signatures, c08sign(chainfx.DetKey(s.cs.Seed, 900+i), hdr()))
 		}
 		foreign = true
+	case "badlen", "badrecid", "badzero":
+		// a full quorum of good votes PLUS one signature no public key can be recovered from (wrong length, recovery id
+		// out of range, r = s = 0): block sync / ValidateBlockCertOnHead refuse such a certificate ("invalid voter")
+		for _, a := range signers {
+			add(a, hdr())
+		}
+		junk := c08sign(s.outsider, hdr())
+		switch shape {
+		case "badlen":
+			junk.Signature = junk.Signature[:64]
+		case "badrecid":
+			junk.Signature[64] = 7
+		case "badzero":
+			junk.Signature = make([]byte, 65)
+		}
+		pos := r.Intn(len(cert.Signatures) + 1)
+		cert.Signatures = append(cert.Signatures[:pos:pos], append([]*types.BlockCertSignature{junk}, cert.Signatures[pos:]...)...)
+		foreign = true
 	case "prevview":
 		st := append([]common.Address{}, stale...)
 		if len(st) == 0 {
@@ -592,11 +610,23 @@ func c08b(v bool) int {
 	return 0
 }
 
+// c08certClass: what the certificate index holds for a block: - (no record) | e (a record without signatures) | c
 func c08certClass(c *types.BlockCert) string {
+	if c == nil {
+		return "-"
+	}
 	if c.Empty() {
-		return "n"
+		return "e"
 	}
 	return "c"
+}
+
+func c08certBytes(c *types.BlockCert) []byte {
+	if c == nil {
+		return nil
+	}
+	raw, _ := c.ToBytes()
+	return append([]byte{1}, raw...)
 }
 
 type c08result struct {
@@ -811,12 +841,6 @@ func c08run(c *hx.Ctx, cs c08case, emit bool) (*c08result, error) {
 			if tipIdx < 0 || it.bundle.Block.Height() >= items[tipIdx].bundle.Block.Height() {
 				tipIdx = i
 			}
-			if !it.valid || it.fake {
-				bad("C08:invalid-fork-accepted:tampered-block", fmt.Sprintf("fork with a tampered block (%s at index %d) was found applicable", cs.TamperKind, i))
-			}
-			if it.bundle.Block.Header.Flags().HasFlag(types.IdentityUpdate) && it.cls != "ok" {
-				bad("C08:fork-accepted-identity-update-uncertified", fmt.Sprintf("identity-update block at height %d carries certificate class %s", it.bundle.Block.Height(), it.cls))
-			}
 		}
 		if tipIdx >= 0 && !structural {
 			switch items[tipIdx].cls {
@@ -830,6 +854,21 @@ func c08run(c *hx.Ctx, cs c08case, emit bool) (*c08result, error) {
 					sig += ":stale-validator-view"
 				}
 				bad(sig, fmt.Sprintf("the last fork block carries a certificate (shape %s) that is not a quorum of the online validators of its parent state", cs.Certs[len(cs.Certs)-1]))
+			}
+		}
+		for i, it := range items {
+			if !it.valid || it.fake {
+				bad("C08:invalid-fork-accepted:tampered-block", fmt.Sprintf("fork with a tampered block (%s at index %d) was found applicable", cs.TamperKind, i))
+			}
+			if it.cls == "bad" && i != tipIdx {
+				shape := ""
+				if cs.List == "ok" && i < len(cs.Certs) {
+					shape = " (shape " + cs.Certs[i] + ")"
+				}
+				bad("C08:fork-accepted-with-invalid-intermediate-cert", fmt.Sprintf("fork block at height %d carries a non-empty certificate%s that is not a quorum certificate of its parent state's online validators (block sync refuses it)", it.bundle.Block.Height(), shape))
+			}
+			if it.bundle.Block.Header.Flags().HasFlag(types.IdentityUpdate) && it.cls != "ok" {
+				bad("C08:fork-accepted-identity-update-uncertified", fmt.Sprintf("identity-update block at height %d carries certificate class %s", it.bundle.Block.Height(), it.cls))
 			}
 		}
 	}
@@ -928,14 +967,13 @@ func c08run(c *hx.Ctx, cs c08case, emit bool) (*c08result, error) {
 					if h > commonH {
 						line(fmt.Sprintf("cert %d", ids.b(ha.Hash())), c08certClass(ca))
 					}
-					if c08certClass(ca) != c08certClass(cc) {
-						bad("C08:adoption-differs:certificates", fmt.Sprintf("stored certificate of canonical block %d: %s vs follower %s", h, c08certClass(ca), c08certClass(cc)))
-					} else if !ca.Empty() {
-						ra, _ := ca.ToBytes()
-						rc, _ := cc.ToBytes()
-						if !bytes.Equal(ra, rc) {
-							bad("C08:adoption-differs:certificates", fmt.Sprintf("stored certificate of canonical block %d differs from the follower", h))
-						}
+					if !bytes.Equal(c08certBytes(ca), c08certBytes(cc)) {
+						bad("C08:adoption-differs:certificates", fmt.Sprintf("certificate record of canonical block %d: %s (%d signatures) vs follower %s", h, c08certClass(ca), func() int {
+							if ca == nil {
+								return 0
+							}
+							return len(ca.Signatures)
+						}(), c08certClass(cc)))
 					}
 				}
 			}
@@ -985,6 +1023,56 @@ func c08run(c *hx.Ctx, cs c08case, emit bool) (*c08result, error) {
 				bad("C08:reverted-txs-not-handed-back", fmt.Sprintf("ApplyFork returned %s, abandoned blocks held %s", ids.txs(reverted), ids.txs(abandoned)))
 			}
 			hit(fmt.Sprintf("reverted-txs:%d", c08b(len(reverted) > 0)))
+			// what the adopted node serves to a node of the old branch that asks for the fork (GetForkBlockRange):
+			// the same as the follower serves, and acceptable to the asker
+			if len(cs.Own)+cs.Prefix < 90 {
+				asker := s.a1
+				hashes := asker.Chain.GetTopBlockHashes(100)
+				var sa, sc []types.BlockBundle
+				if r, d := c08guard(func() error {
+					sa = A.Chain.ReadBlockForForkedPeer(hashes)
+					sc = C.Chain.ReadBlockForForkedPeer(hashes)
+					return nil
+				}); r != "ok" {
+					bad("C08:fork-resolver-panic", "ReadBlockForForkedPeer: "+d)
+				}
+				desc := func(l []types.BlockBundle) string {
+					var p []string
+					for _, b := range l {
+						p = append(p, fmt.Sprintf("%d:%s", ids.b(b.Block.Hash()), c08certClass(b.Cert)))
+					}
+					return strings.Join(append([]string{"srv"}, p...), " ")
+				}
+				var asked []string
+				for _, hh := range hashes {
+					asked = append(asked, fmt.Sprint(ids.b(hh)))
+				}
+				line(fmt.Sprintf("serve %d %s", A.Cfg.Blockchain.StoreCertRange, strings.Join(asked, ",")), desc(sa))
+				same := len(sa) == len(sc)
+				for k := 0; same && k < len(sa); k++ {
+					same = sa[k].Block.Hash() == sc[k].Block.Hash() && bytes.Equal(c08certBytes(sa[k].Cert), c08certBytes(sc[k].Cert))
+				}
+				if !same {
+					bad("C08:adoption-differs:served-fork", fmt.Sprintf("fork served to an old-branch node: %s, the follower serves %s", desc(sa), desc(sc)))
+				}
+				// (a range whose last block has no certificate record is what any node serves when more than StoreCertRange
+				// consecutive blocks are uncertified; the asker refuses it, the follower serves the same)
+				if len(sa) > 0 && sa[len(sa)-1].Cert == nil {
+					hit("served-fork:uncertified-tip-like-follower")
+				} else if len(sa) > 0 {
+					var wire []types.BlockBundle
+					for _, b := range sa {
+						cb, _ := chainfx.CloneBlock(b.Block)
+						wire = append(wire, types.BlockBundle{Block: cb, Cert: c08cloneCert(b.Cert)})
+					}
+					if r, d := c08guard(func() error { return asker.Chain.ValidateSubChain(wire[0].Block.Height()-1, wire) }); r != "ok" {
+						bad("C08:adoption-differs:served-fork", fmt.Sprintf("the fork served by the adopted node (%s) is refused by a node of the old branch: %s", desc(sa), strings.SplitN(d, "\n", 2)[0]))
+					}
+					hit("served-fork:accepted-by-old-branch")
+				} else {
+					hit("served-fork:empty")
+				}
+			}
 			// continue both nodes with two more blocks of the fork branch: hidden state must agree as well
 			for k := 0; k < 2 && fail == nil; k++ {
 				if s.b.Chain.Head.Hash() != A.Chain.Head.Hash() {
@@ -1030,7 +1118,7 @@ func c08run(c *hx.Ctx, cs c08case, emit bool) (*c08result, error) {
 	return fail, nil
 }
 
-var c08shapes = []string{"nil", "empty", "emptyhdr", "valid", "min", "under", "dupsig", "forged", "outsider", "prevview", "round", "hash", "parent"}
+var c08shapes = []string{"badlen", "nil", "empty", "badrecid", "emptyhdr", "under", "badzero", "dupsig", "forged", "outsider", "prevview", "round", "hash", "parent", "valid", "min"}
 
 func c08gen(r *rand.Rand, i int) c08case {
 	cs := c08case{Seed: r.Int63n(1 << 40), Online: 1 + r.Intn(5), Prefix: 1 + r.Intn(8), Tamper: -1, List: "ok", Share: r.Intn(3) == 0}
@@ -1128,10 +1216,36 @@ func c08gen(r *rand.Rand, i int) c08case {
 				cs.Fork[j] = "p"
 			}
 		}
-	case 2: // defective tip certificate: every shape in turn
-		cs.Certs[nFork-1] = c08shapes[(i/11)%len(c08shapes)]
-	case 3: // defective certificate somewhere
-		cs.Certs[r.Intn(nFork)] = c08shapes[(i/11+r.Intn(2))%len(c08shapes)]
+		if (i/11)%3 != 2 { // deliberately: a non-tip block delivered with the empty (non-nil) certificate shape
+			if nFork < 2 {
+				cs.Fork = append([]string{"q"}, cs.Fork...)
+				cs.Certs = append([]string{"nil"}, cs.Certs...)
+				nFork = 2
+			}
+			cs.Certs[[]int{nFork - 2, 0, r.Intn(nFork - 1)}[(i/11)%3]] = []string{"emptyhdr", "empty"}[(i/33)%2]
+			if cs.Prefix < 4 {
+				cs.Prefix += 3 // the pending online switches of the prefix are applied before the fork starts
+			}
+			if (i/11)%2 == 0 {
+				cs.Own = nil // the asker's head is the common block: the served range ends right after the first fork block
+			}
+		}
+	case 2, 3: // one defective certificate, everything else certified: on the tip (2) / on a non-tip block (3); every shape in turn
+		for j := range cs.Certs {
+			if cs.Certs[j] == "nil" || cs.Certs[j] == "empty" {
+				cs.Certs[j] = "valid"
+			}
+		}
+		if i%11 == 2 {
+			cs.Certs[nFork-1] = c08shapes[(i/11)%len(c08shapes)]
+		} else {
+			if nFork < 2 {
+				cs.Fork = append(cs.Fork, "q")
+				cs.Certs = append(cs.Certs, "valid")
+				nFork = 2
+			}
+			cs.Certs[r.Intn(nFork-1)] = c08shapes[(i/11)%len(c08shapes)]
+		}
 	case 4: // tampered block: every operator in turn, first / middle / last block
 		kinds := []string{"root", "droptx", "flags", "time", "idroot"}
 		cs.TamperKind = kinds[(i/11)%len(kinds)]
@@ -1291,8 +1405,8 @@ func init() {
 			}
 			return runOne(wrap.Replay)
 		}
-		c.Rep.Rule = "three real replica groups over one genesis (observed node A, fork branch B, clean follower C; 11 identities, 1-5 online validators, two proposer keys); common prefix 1-11, own branch 0-6, fork 1-20 blocks of kinds empty / proposed / with transactions / kill transaction (identity update) / online switch; per fork block one of 12 certificate shapes signed with the real validator keys; 11 case families (i mod 11): fully certified, uncertified middle blocks, defective tip certificate, defective certificate anywhere, tampered block (5 operators), hostile lists (gap, duplicate, first block dropped, height 0, height 0 + tip, far future, none, shuffled), real peer answer (GetTopBlockHashes -> ReadBlockForForkedPeer) / answer starting below the ancestor, all certificates random, validator set switched inside the fork with a tip certificate by the old quorum / by the new one, common ancestor at the edge of the 100-version window; distinct = distinct (shape) cases; non-trivial = the real processBlocks was reached with a non-empty list"
-		n := c.Scale(165, 3300)
+		c.Rep.Rule = "three real replica groups over one genesis (observed node A, fork branch B, clean follower C; 11 identities, 1-5 online validators, two proposer keys); common prefix 1-11, own branch 0-6, fork 1-20 blocks of kinds empty / proposed / with transactions / kill transaction (identity update) / online switch; per fork block one of 16 certificate shapes (incl. a full quorum plus one signature no key can be recovered from: wrong length / recovery id / zero) signed with the real validator keys; 11 case families (i mod 11): fully certified, uncertified middle blocks, defective tip certificate, defective certificate anywhere, tampered block (5 operators), hostile lists (gap, duplicate, first block dropped, height 0, height 0 + tip, far future, none, shuffled), real peer answer (GetTopBlockHashes -> ReadBlockForForkedPeer) / answer starting below the ancestor, all certificates random, validator set switched inside the fork with a tip certificate by the old quorum / by the new one, common ancestor at the edge of the 100-version window; distinct = distinct (shape) cases; non-trivial = the real processBlocks was reached with a non-empty list"
+		n := c.Scale(198, 3300)
 		for i := 0; i < n; i++ {
 			cs := c08gen(c.Rng, i)
 			if c.Distinct(c08key(cs)) {
